@@ -198,6 +198,11 @@ pub struct Session {
     /// fact asset ships under a name that sorts last: the facts are indexed in another order)
     #[serde(default, skip_serializing_if = "std::ops::Not::not")]
     pub ren: bool,
+    /// run the *earlier build* of the tool: the repository as it was at the recorded baseline commit
+    /// (only built when the tree under test differs from it) - what a user who updates the tool
+    /// without a version change finds in the data directory
+    #[serde(default, skip_serializing_if = "std::ops::Not::not")]
+    pub base: bool,
     /// extra environment variables of this process start (RUST_LOG and the like; "<unset>" removes one).
     /// With RUST_LOG set the simulated process installs the same logger as the real program.
     #[serde(default, skip_serializing_if = "Vec::is_empty")]
